@@ -262,4 +262,87 @@ theorem rescan_sim (c : Cfg) (k : Comp) (p : Pred) (hk : c.skip k = .pred p) (hp
         | cons d ds' => simp only [List.length_cons] at this; omega
       exact ⟨rr, by rw [hdd], by rw [hri]; omega⟩
 
+theorem contig_of_pred (c : Cfg) (k : Comp) (p : Pred) (hk : c.skip k = .pred p) : c.iterContiguous k = false := by
+  cases hc : c.iterContiguous k
+  · rfl
+  · rw [skip_of_contig c k hc] at hk; cases hk
+
+/-- **re-scan consistency for every separator predicate except I+T+C** -/
+theorem rescan_pred (c : Cfg) (k : Comp) (p : Pred) (hk : c.skip k = .pred p) (hp : p ≠ .itc) (hd : c.debug = false)
+    (hreach : ∀ k, c.skip k ≠ .unreachable) (hf : c.feats.format = true) (hks : k ≠ .special)
+    (hsep : ∀ x, c.isSep x = true → charToDigit x c.mantissaRadix = none) : Rescan c k := by
+  intro hc b e ds hR h0 hv hprev hnext
+  have hrun := hR.run
+  unfold parseDigits at hrun
+  have hnew : Bytes.iterCount c k (Bytes.new (slice b.slc b.index e.index)) = Bytes.iterCount c k b := by
+    rw [h0]; cases k <;> simp_all [Bytes.iterCount, Bytes.new]
+  obtain ⟨e', g1, g2⟩ := rescan_sim c k p hk hp hd hc hf hks hsep b.slc b.index e.index hR.valid hprev hnext
+    (b.slc.length + 1) b e (Bytes.new (slice b.slc b.index e.index)) ds hrun rfl (Nat.le_refl _) rfl rfl
+    (by simp [Bytes.new]) hnew
+  obtain ⟨ds', e'', hrun', _⟩ := PNTotal.parseDigits_tot ⟨hd, hreach⟩ k c.mantissaRadix
+    (Bytes.new (slice b.slc b.index e.index)) (by simp [Bytes.new])
+  refine ⟨ds', e'', hrun', ?_⟩
+  unfold parseDigits at hrun'
+  have hlen : (slice b.slc b.index e.index).length = e.index - b.index := slice_length _ _ _ hR.valid
+  have := parseDigitsLoop_fuel_le c k c.mantissaRadix hd _ (b.slc.length + 1)
+    (by simp only [new_slc, hlen]; have := hR.valid; omega) _ _ _ hrun'
+  rw [g1] at this
+  simp only [Except.ok.injEq, Prod.mk.injEq] at this
+  rw [← this.2, g2, hlen]
+
+/-- a non-consecutive predicate that skips a separator although the next byte is a separator too does not skip that
+next one when asked again (only `il` before the first digit does the former) -/
+theorem holds_next_sep (c : Cfg) (p : Pred) (hnc : p.consecutive = false) (n n2 : Nbr) (first : Bool) (x v0 : Nat)
+    (hn : n.next = some x) (hsx : c.isSep x = true) (hdx : c.isDigit x = false) (hv0s : c.isSep v0 = true)
+    (hv0d : c.isDigit v0 = false) (hp2 : n2.prev = some v0) (h : p.holds c n first = true) :
+    p.holds c n2 first = false := by
+  obtain ⟨p1, x1, pc1, xc1⟩ := n
+  obtain ⟨p2, x2, pc2, xc2⟩ := n2
+  simp only at hn hp2
+  subst hn hp2
+  cases p <;> cases first <;> simp_all [Pred.holds, Pred.consecutive]
+
+/-- a separator that a skip iterator returned is returned again by a second `peek` -/
+theorem peekStable_pred (c : Cfg) (k : Comp) (p : Pred) (hk : c.skip k = .pred p)
+    (hsepd : ∀ x, c.isSep x = true → c.isDigit x = false) : PeekStable c k := by
+  intro b b1 x hv hp hs
+  have hc := contig_of_pred c k p hk
+  rw [peek_pred c k p hk] at hp ⊢
+  simp only [Except.ok.injEq] at hp ⊢
+  unfold peekPred at hp
+  cases hg : b.slc[b.index]? with
+  | none => rw [hg] at hp; simp only [Prod.mk.injEq] at hp; cases hp.1
+  | some v0 =>
+    rw [hg] at hp
+    simp only at hp
+    by_cases hs0 : c.isSep v0 = true
+    · by_cases hh : p.holds c (nbr c b.slc b.index) (b.iterCount c k == 0) = true
+      · simp only [hs0, hh, if_true] at hp
+        by_cases hcons : p.consecutive = true
+        · -- a consecutive predicate lands behind the whole run of separators
+          exfalso
+          simp only [hcons, if_true, Prod.mk.injEq] at hp
+          have := countSeps_stop c (b.slc.drop (b.index + 1)) x (by rw [List.getElem?_drop]; rw [← hp.1])
+          rw [hs] at this; cases this
+        · have hcons' : p.consecutive = false := by simpa using hcons
+          simp only [hcons', Bool.false_eq_true, if_false, Prod.mk.injEq] at hp
+          obtain ⟨hx, rfl⟩ := hp
+          -- the byte behind is a separator again; asked there, the predicate says no
+          have hcnt : Bytes.iterCount c k ({ b with index := b.index + 1 } : Bytes) = Bytes.iterCount c k b := by
+            cases k <;> simp [Bytes.iterCount, hc]
+          have hno : p.holds c (nbr c b.slc (b.index + 1)) (b.iterCount c k == 0) = false :=
+            holds_next_sep c p hcons' (nbr c b.slc b.index) (nbr c b.slc (b.index + 1)) _ x v0
+              (by simp [nbr, hx]) hs (hsepd x hs) hs0 (hsepd v0 hs0) (by simp [nbr, getPrev, hg]) hh
+          unfold peekPred
+          simp only [hx, hs, if_true, hcnt, hno, Bool.false_eq_true, if_false]
+      · simp only [hs0, hh, if_true, Bool.false_eq_true, if_false, Prod.mk.injEq] at hp
+        obtain ⟨hx, rfl⟩ := hp
+        unfold peekPred
+        simp only [hg, hs0, hh, if_true, Bool.false_eq_true, if_false, hx, ite_self]
+    · simp only [hs0, Bool.false_eq_true, if_false, Prod.mk.injEq] at hp
+      obtain ⟨hx, rfl⟩ := hp
+      simp only [Option.some.injEq] at hx
+      subst hx
+      exact absurd hs hs0
+
 end LexVerif.Proof.Sep
